@@ -24,12 +24,18 @@ import (
 	"verifharness/h"
 )
 
+// extraC11Exec: executors defined in c11b.go
+var extraC11Exec = map[string]h.ExecFn{
+	"go.adnl.concurrent": goAdnlConcurrent,
+	"go.adnl.coalesced":  goAdnlCoalesced,
+}
+
 func init() {
 	ex := map[string]h.ExecFn{
 		"prim.aes256ctr":  exAesCtr,
 		"adnl.params":     exAdnlParams,
 		"adnl.frame":      exAdnlFrame,
-		"adnl.parsepkt":      exAdnlParse,
+		"adnl.parsepkt":   exAdnlParse,
 		"adnl.recv":       exAdnlRecv,
 		"adnl.send":       exAdnlSend,
 		"adnl.handshake":  exAdnlHandshake,
@@ -39,6 +45,9 @@ func init() {
 		"go.adnl.session": goAdnlSession,
 		"go.adnl.faults":  goAdnlFaults,
 		"go.adnl.econn":   goAdnlEconn,
+	}
+	for k, v := range extraC11Exec {
+		ex[k] = v
 	}
 	h.Register(&h.Prop{ID: "C11", Gen: genC11, Exec: withPrim(ex)})
 }
@@ -1033,6 +1042,7 @@ func genC11(g *h.G) {
 			g.Emit("go.adnl.faults", h.Hex(g.Bytes(32)), fmt.Sprint(seed), joinSizes(sizes), f)
 		}
 	}
+	genC11Extra(g)
 	if g.Thorough() {
 		// the 8 MiB limit, once: a frame of exactly the maximal length is delivered, one byte more is rejected
 		key, iv := g.Bytes(32), g.Bytes(16)
